@@ -2,7 +2,7 @@
 
 use std::borrow::Borrow;
 use std::fmt;
-use support::elems::{Class, HKey, HVal, NdKey, NdVal, TKey, TVal, Z};
+use support::elems::{AKey, AVal, Class, HKey, HVal, NdKey, NdVal, NzVal, TKey, TVal, Tiny, WClass, Word, Z};
 
 pub trait KeyF: PartialEq + Eq + Sized + Clone + fmt::Debug + fmt::Display + Borrow<Self::Q> + 'static {
     /// borrowed form used for lookups
@@ -49,6 +49,8 @@ pub trait Fam: 'static {
     const TRACKED: bool;
     /// equal keys are distinguishable by their tag (stored-key identity is observable)
     const IDENT: bool = Self::TRACKED;
+    /// tags wrap around after this many (0 = never): keys that have only a few bits for a tag
+    const TAG_MOD: u32 = 0;
     /// (key clones, value clones) made so far, for families that count `Clone::clone` calls themselves
     fn clone_counts() -> Option<(u64, u64)> {
         None
@@ -450,4 +452,173 @@ impl Fam for NoDrop {
     fn clone_counts() -> Option<(u64, u64)> {
         Some(support::elems::nd_clone_counts())
     }
+}
+
+// ---- tiny: one-byte key with its own `==` (class = low 5 bits, tag = high 3 bits), no drop glue ----------
+
+impl KeyF for Tiny {
+    type Q = Tiny;
+    fn mk(class: u32, tag: u32) -> Self {
+        Tiny::new(class, tag)
+    }
+    fn class(&self) -> u32 {
+        Tiny::class(self)
+    }
+    fn tag(&self) -> u32 {
+        Tiny::tag(self)
+    }
+    fn id(&self) -> u64 {
+        0
+    }
+    fn chk(&self, _: &'static str) -> bool {
+        true
+    }
+    fn with_q<R>(class: u32, f: impl FnOnce(&Tiny) -> R) -> R {
+        f(&Tiny::new(class, 0))
+    }
+    fn dbg_render(class: u32, tag: u32) -> String {
+        format!("T{}#{}", class, tag)
+    }
+    fn disp_render(class: u32, tag: u32) -> String {
+        format!("t{}.{}", class, tag)
+    }
+}
+pub struct TinyF;
+impl Fam for TinyF {
+    type K = Tiny;
+    type V = u32;
+    const NAME: &'static str = "tiny";
+    const TRACKED: bool = false;
+    const IDENT: bool = true;
+    const TAG_MOD: u32 = 7;
+}
+
+// ---- word: four-byte key with its own `==` (class = low 16 bits, tag = high 16 bits) whose borrowed form is
+// ---- the same word under another type; value with a niche (Option<NonZeroU32>) -------------------------------
+
+impl KeyF for Word {
+    type Q = WClass;
+    fn mk(class: u32, tag: u32) -> Self {
+        Word::new(class, tag)
+    }
+    fn class(&self) -> u32 {
+        Word::class(self)
+    }
+    fn tag(&self) -> u32 {
+        Word::tag(self)
+    }
+    fn id(&self) -> u64 {
+        0
+    }
+    fn chk(&self, _: &'static str) -> bool {
+        true
+    }
+    fn with_q<R>(class: u32, f: impl FnOnce(&WClass) -> R) -> R {
+        f(&WClass(class | 0x7FFF_0000))
+    }
+    fn dbg_render(class: u32, tag: u32) -> String {
+        format!("W{}#{}", class, tag)
+    }
+    fn disp_render(class: u32, tag: u32) -> String {
+        format!("w{}.{}", class, tag)
+    }
+}
+impl ValF for NzVal {
+    fn mk(payload: u32) -> Self {
+        NzVal::new(payload)
+    }
+    fn payload(&self) -> u32 {
+        self.get()
+    }
+    fn set_payload(&mut self, p: u32) {
+        *self = NzVal::new(p);
+    }
+    fn id(&self) -> u64 {
+        0
+    }
+    fn chk(&self, _: &'static str) -> bool {
+        true
+    }
+    fn dbg_render(payload: u32) -> String {
+        format!("N{}", payload)
+    }
+    fn disp_render(payload: u32) -> String {
+        format!("n{}", payload)
+    }
+    fn default_payload() -> u32 {
+        0
+    }
+}
+pub struct WordF;
+impl Fam for WordF {
+    type K = Word;
+    type V = NzVal;
+    const NAME: &'static str = "word";
+    const TRACKED: bool = false;
+    const IDENT: bool = true;
+    const TAG_MOD: u32 = 0xFFFE;
+}
+
+// ---- align: over-aligned key (64) and value (32), no drop glue -------------------------------------------
+
+impl KeyF for AKey {
+    type Q = Class;
+    fn mk(class: u32, tag: u32) -> Self {
+        AKey { class, tag }
+    }
+    fn class(&self) -> u32 {
+        self.class
+    }
+    fn tag(&self) -> u32 {
+        self.tag
+    }
+    fn id(&self) -> u64 {
+        0
+    }
+    fn chk(&self, _: &'static str) -> bool {
+        (self as *const AKey as usize) % 64 == 0
+    }
+    fn with_q<R>(class: u32, f: impl FnOnce(&Class) -> R) -> R {
+        f(&Class(class))
+    }
+    fn dbg_render(class: u32, tag: u32) -> String {
+        format!("A{}#{}", class, tag)
+    }
+    fn disp_render(class: u32, tag: u32) -> String {
+        format!("a{}.{}", class, tag)
+    }
+}
+impl ValF for AVal {
+    fn mk(payload: u32) -> Self {
+        AVal(payload)
+    }
+    fn payload(&self) -> u32 {
+        self.0
+    }
+    fn set_payload(&mut self, p: u32) {
+        self.0 = p;
+    }
+    fn id(&self) -> u64 {
+        0
+    }
+    fn chk(&self, _: &'static str) -> bool {
+        (self as *const AVal as usize) % 32 == 0
+    }
+    fn dbg_render(payload: u32) -> String {
+        format!("AV{}", payload)
+    }
+    fn disp_render(payload: u32) -> String {
+        format!("av{}", payload)
+    }
+    fn default_payload() -> u32 {
+        0
+    }
+}
+pub struct AlignF;
+impl Fam for AlignF {
+    type K = AKey;
+    type V = AVal;
+    const NAME: &'static str = "align";
+    const TRACKED: bool = false;
+    const IDENT: bool = true;
 }
